@@ -151,7 +151,8 @@ def h_positions(E, subset, order_idx, wrong_key):
 
 ERRS = {
     'noninteger-lower': (['1.5', '4', 'n', 'n'], 'SummationError'), 'noninteger-upper': (['1', '9/2', 'n', 'n'], 'SummationError'),
-    'complex-limit': (['i', '4', 'n', 'n'], 'SummationError'), 'var-is-variable': (['1', '4', 'x', 'x'], 'SummationError'),
+    'complex-limit': (['i', '4', 'n', 'n'], 'SummationError'), 'complex-typed-real-limit': (['0-i^2', '4', 'n', 'n'], 'SummationError'),
+    'complex-typed-real-upper': (['1', '(1+i)*(1-i)+2', 'n', 'n'], 'SummationError'), 'complex-limit-i^4': (['i^4', '4', 'n', 'n'], 'SummationError'), 'var-is-variable': (['1', '4', 'x', 'x'], 'SummationError'),
     'var-is-constant': (['1', '4', 'pi', 'pi'], 'InvalidInput'), 'var-is-function': (['1', '4', 'sin', 'sin'], 'InvalidInput'),
     'var-invalid-name': (['1', '4', '2', '2n'], 'InvalidInput'), 'blank-lower': (['', '4', 'n', 'n'], 'MissingInput'),
     'blank-summand': (['1', '4', '', 'n'], 'MissingInput'), 'blank-var': (['1', '4', 'n', ''], 'MissingInput'),
